@@ -2,6 +2,7 @@
 from collections import defaultdict
 
 from prog import CFG, def_sites, backward_slice, operand_local, operand_place, place_fields
+import re
 import e1 as e1mod
 
 BE_ID = e1mod.BE_ID
@@ -881,3 +882,159 @@ def rule_l4(P, tables):
     if n_pub < 4:
         raise E5Error(f"L4: too few public.* lib lookups found ({n_pub})")
     return findings, obl, samples, {"public_key_lookups": n_pub, "on_designspace_lib": n_ds}
+
+
+def rule_t3(P):
+    """A table builder's `is_empty()` verdict decides whether the table is emitted at all.  It must be taken after the builder is
+    complete: a write to a field that `is_empty` reads, reachable *after* the call on the same value, means the verdict was
+    computed on a half-filled builder (the table - or the part filled later - is silently dropped although other tables
+    already refer to it)."""
+    WS = ("fea_rs::", "fontbe::", "fontir::", "fontc::", "fontdrasil::", "glyphs_reader::", "glyphs2fontir::", "ufo2fontir::", "fontra2fontir::")
+
+    def fields_read(fn):
+        out = set()
+        b = P.bodies[fn]
+        for blk in b["blocks"]:
+            for st in blk["s"]:
+                rv = st["rv"]
+                pls = []
+                if "p" in rv:
+                    pls.append(rv["p"])
+                for o in rv.get("o", []):
+                    pl = o.get("m") or o.get("c")
+                    if pl:
+                        pls.append(pl)
+                for pl in pls:
+                    if pl and pl[0] == 1:
+                        for e in pl[1:]:
+                            if isinstance(e, str) and e.startswith("f:"):
+                                out.add(e.split(":")[1])
+                                break
+        return out
+
+    findings, obl = [], []
+    n = 0
+    from common import norm_fn
+    for key, b in sorted(P.bodies.items()):
+        if not key.startswith(WS):
+            continue
+        cfg = None
+        for bi, blk in enumerate(b["blocks"]):
+            t = blk["t"]
+            if t["t"] != "call" or blk["cl"]:
+                continue
+            k = t["f"].get("k") or {}
+            res = k.get("res") or ""
+            if not (res.endswith("::is_empty") and res.startswith(WS) and res in P.bodies):
+                continue
+            n += 1
+            a0 = operand_local(t["a"][0]) if t["a"] else None
+            recv = None
+            for b2 in b["blocks"]:
+                for st in b2["s"]:
+                    if st["d"] == [a0] and st["rv"].get("r") == "ref":
+                        recv = st["rv"]["p"]
+            ok = True
+            if recv and t["to"]:
+                base = recv[0]
+                F = fields_read(res)
+                cfg = cfg or CFG(b)
+                for x in cfg.reachable_from(t["to"][0]):
+                    for st in b["blocks"][x]["s"]:
+                        d = st["d"]
+                        if len(d) >= 2 and d[0] == base:
+                            f = [e for e in d[1:] if isinstance(e, str) and e.startswith("f:")]
+                            if f and f[0].split(":")[1] in F:
+                                ok = False
+                                findings.append({"rule": "T3", "key": f"T3|{norm_fn(key)}|{res.rsplit('::', 2)[-2]}|{f[0].split(':')[1]}",
+                                                 "msg": f"{key} asks {res} whether the builder is empty and fills its field `{f[0].split(':')[1]}` afterwards (line {st['l']}): "
+                                                        f"the verdict that decides whether the table is emitted does not see that field",
+                                                 "loc": P.site_loc(key, t["l"]), "detail": {}})
+            obl.append({"rule": "T3", "inst": f"{norm_fn(key)}: {res.split('::', 1)[1]} is consulted after the fields it reads are final", "ok": ok})
+    if n < 10:
+        raise E5Error(f"T3: only {n} builder is_empty() calls found")
+    return findings, obl, {"builder_is_empty_calls": n}
+
+
+def rule_l5(P):
+    """Token lengths, split ranges and diagnostic ranges are BYTE offsets into the source.  A number of characters
+    (`chars().count()`, `chars().position(..)`) is a different unit: used as a byte offset it ends inside a multi-byte character
+    and the tree builder's `&text[pos..pos + len]` panics.  Structural clause: in the FEA front end a char count never meets a
+    byte length in arithmetic / comparison and never becomes a Range bound."""
+    from common import norm_fn
+    findings, obl = [], []
+    n_src = n_fn = 0
+    BYTELEN = re.compile(r"^(core::str::\{impl#\d+\}::len|core::slice::\{impl#\d+\}::len|alloc::string::\{impl#\d+\}::len|alloc::vec::\{impl#\d+\}::len)$")
+    for key, b in sorted(P.bodies.items()):
+        if not key.startswith(("fea_rs::parse::", "fea_rs::token_tree")):
+            continue
+        n_fn += 1
+        tainted, bytelen = {}, set()
+        for blk in b["blocks"]:
+            t = blk["t"]
+            if t["t"] != "call" or blk["cl"]:
+                continue
+            k = t["f"].get("k") or {}
+            fn = k.get("fn", "")
+            d = t["d"]
+            if fn.endswith(("Iterator::count", "Iterator::position", "Iterator::rposition")) and "str::Chars" in ((k.get("ga") or [""])[0]):
+                if len(d) == 1:
+                    tainted[d[0]] = t["l"]
+                    n_src += 1
+            if BYTELEN.match(k.get("res") or "") and len(d) == 1:
+                bytelen.add(d[0])
+        if not tainted:
+            continue
+        changed = True
+        while changed:
+            changed = False
+            for blk in b["blocks"]:
+                for st in blk["s"]:
+                    d = st["d"]
+                    if len(d) != 1 or d[0] in tainted:
+                        continue
+                    rv = st["rv"]
+                    if rv.get("r") in ("use", "cast", "bin", "un"):
+                        for o in rv.get("o", []):
+                            pl = o.get("m") or o.get("c")
+                            if pl and pl[0] in tainted:
+                                tainted[d[0]] = tainted[pl[0]]
+                                changed = True
+                                break
+                # Option adapters keep the unit: chars().position(..).unwrap_or(..)
+                t = blk["t"]
+                if t["t"] == "call" and not blk["cl"] and len(t["d"]) == 1 and t["d"][0] not in tainted:
+                    k = t["f"].get("k") or {}
+                    if (k.get("res") or k.get("fn") or "").startswith("core::option::"):
+                        for o in t["a"]:
+                            pl = o.get("m") or o.get("c")
+                            if pl and pl[0] in tainted:
+                                tainted[t["d"][0]] = tainted[pl[0]]
+                                changed = True
+                                break
+        bad = []
+        for blk in b["blocks"]:
+            for st in blk["s"]:
+                rv = st["rv"]
+                ops = [(o.get("m") or o.get("c") or [None])[0] for o in rv.get("o", [])]
+                if rv.get("r") == "bin" and any(x in tainted for x in ops) and any(x in bytelen for x in ops):
+                    bad.append((st["l"], f"{rv.get('op')} with a byte length"))
+                if rv.get("r") == "agg" and str(rv.get("adt", "")).startswith("core::ops::range::Range") and any(x in tainted for x in ops):
+                    bad.append((st["l"], "used as a Range bound"))
+            t = blk["t"]
+            if t["t"] == "call" and not blk["cl"]:
+                k = t["f"].get("k") or {}
+                ops = [(o.get("m") or o.get("c") or [None])[0] for o in t["a"]]
+                if (k.get("res") or k.get("fn") or "").startswith("core::option::") and any(x in tainted for x in ops) and any(x in bytelen for x in ops):
+                    bad.append((t["l"], "defaulted to a byte length"))
+                if (k.get("res") or k.get("fn") or "").endswith("::index") and any(x in tainted for x in ops[1:]):
+                    bad.append((t["l"], "used to index the text"))
+        obl.append({"rule": "L5", "inst": f"{norm_fn(key)}: character counts stay apart from byte offsets", "ok": not bad})
+        if bad:
+            findings.append({"rule": "L5", "key": f"L5|{norm_fn(key)}", "msg": f"{key} counts characters (line {sorted(set(tainted.values()))[0]}) and uses the count as a byte quantity "
+                             f"({'; '.join(sorted({f'line {l}: {w}' for l, w in bad}))}): for multi-byte characters the resulting offset lies inside a character "
+                             f"(slicing the source there panics) or past the end", "loc": P.site_loc(key, bad[0][0]), "detail": {}})
+    obl.append({"rule": "L5", "inst": f"{n_fn} FEA front-end functions scanned; {n_src} character-count sources", "ok": True})
+    if n_fn < 300:
+        raise E5Error(f"L5: only {n_fn} FEA front-end functions seen")
+    return findings, obl, {"l5_functions": n_fn, "l5_char_count_sources": n_src}
